@@ -189,14 +189,18 @@ func (s *PersistentHybridIndex) writeIndexToSegment(
 	// Close gzip writers
 	if vectorGz != nil {
 		vectorGz.Close()
+		verifPoint("compact.gzclosed", 1)
 	}
 	if textGz != nil {
 		textGz.Close()
+		verifPoint("compact.gzclosed", 2)
 	}
 	if metadataGz != nil {
 		metadataGz.Close()
+		verifPoint("compact.gzclosed", 3)
 	}
 	hybridGz.Close()
+	verifPoint("compact.gzclosed", 0)
 	verifPoint("compact.closed")
 
 	return nil
